@@ -72,7 +72,7 @@ pub fn check(prop: &str, tier: &str) -> i32 {
                 "frame level: hooks fire before frame set-up, so warm marks and the creator's nonce bump are excluded".into(),
             ];
             rep.run_engine(&JournalSim { focus: "C06".into() }, scale(tier, 2_000_000, 30_000_000), &findings);
-            rep.run_engine(&TxSim { focus: "C06".into() }, scale(tier, 200_000, 4_000_000), &findings);
+            rep.run_engine(&TxSim { focus: "C06".into() }, scale(tier, 400_000, 4_000_000), &findings);
         }
         "C07" | "C08" | "C09" | "C10" | "C11" | "C29" | "C30" | "C34" => {
             rep.rule = E1_RULE.into();
@@ -80,8 +80,8 @@ pub fn check(prop: &str, tier: &str) -> i32 {
             rep.stub_components = strs(STUB_E1);
             rep.assumptions = vec!["the monitor reads only the journaled state, never the database".into(), "injected inspector outcomes are legal ones (gas <= forwarded gas, results real frames produce)".into()];
             let (q, t) = match prop {
-                "C07" => (12_000, 300_000),
-                _ => (300_000, 6_000_000),
+                "C07" => (20_000, 300_000),
+                _ => (600_000, 6_000_000),
             };
             rep.run_engine(&TxSim { focus: prop.into() }, scale(tier, q, t), &findings);
             if prop == "C11" {
@@ -104,11 +104,11 @@ pub fn check(prop: &str, tier: &str) -> i32 {
             rep.stub_components = strs(STUB_E1);
             rep.stub_components.push("FaultyWriter (the tracer's trace sink, failing on schedule; C28)".into());
             rep.assumptions = vec!["spec changes stay on one side of Spurious Dragon (the state-clear flag of the database layers is the embedder's job)".into(), "C22: histories in which the beneficiary is a party of a transaction are not compared (the twins may legitimately diverge)".into()];
-            rep.run_engine(&TwinSim { mode: prop.into() }, scale(tier, 200_000, 4_000_000), &findings);
+            rep.run_engine(&TwinSim { mode: prop.into() }, scale(tier, 400_000, 4_000_000), &findings);
             #[cfg(feature = "optimism")]
             if prop == "C22" {
                 rep.real_components.push("revm optimism handler register (Handler::optimism_with_spec(spec, reward)), fee vault credits".into());
-                rep.run_engine(&crate::op_sim::OpRewardSim, scale(tier, 150_000, 3_000_000), &findings);
+                rep.run_engine(&crate::op_sim::OpRewardSim, scale(tier, 300_000, 3_000_000), &findings);
             }
         }
         "C15" | "C16" | "C17" | "C18" | "C19" => {
@@ -119,7 +119,7 @@ pub fn check(prop: &str, tier: &str) -> i32 {
             ];
             rep.stub_components = vec!["SimDisk + FaultyDb (simulated disk, fault injection)".into(), "reference appliers: apply_evm_state, apply_changeset, undo_group (sim/src/disk.rs, sim/src/e3_state.rs)".into()];
             rep.assumptions = vec!["plain state is compared after normalisation: zero slots dropped; with state clear an empty account without storage equals no account".into(), "State::storage is only called after the account was loaded (documented precondition)".into()];
-            rep.run_engine(&StateSim { focus: prop.into() }, scale(tier, 150_000, 3_000_000), &findings);
+            rep.run_engine(&StateSim { focus: prop.into() }, scale(tier, 300_000, 3_000_000), &findings);
         }
         #[cfg(feature = "optimism")]
         "C33" => {
@@ -127,7 +127,7 @@ pub fn check(prop: &str, tier: &str) -> i32 {
             rep.real_components = vec!["revm optimism handler register (validation, deduct_caller, last_frame_return, refund, reimburse_caller, reward_beneficiary, output, end), L1BlockInfo, fast_lz; Evm + interpreter + layer stacks as in E1".into()];
             rep.stub_components = strs(STUB_E1);
             rep.assumptions = vec!["balances stay below 2^128 (saturating arithmetic is not the subject)".into(), "programs move no ether themselves (only the transaction's value), so the five parties' deltas are attributable".into(), "deposits that cannot start (gas limit below intrinsic gas) are not generated".into()];
-            rep.run_engine(&crate::op_sim::OpSim, scale(tier, 300_000, 6_000_000), &findings);
+            rep.run_engine(&crate::op_sim::OpSim, scale(tier, 600_000, 6_000_000), &findings);
         }
         "C20" => {
             rep.rule = "seeded worlds on the simulated disk, one of twelve wrapper stacks drawn per run (CacheDB, State, State+bundle, WrapDatabaseRef, WrapDatabaseRef<CacheDB>, CacheDB<CacheDB>, State<CacheDB>, Box<State<Box>>, DatabaseComponents<Arc,Arc>, CacheDB<DatabaseComponents>, and CacheDB<EmptyDB> / State<EmptyDB> holding the world themselves, loaded through insert_account_info / insert_account_storage / insert_account_with_storage) and sequences of 4-40 queries (basic, code_by_hash, storage, block_hash around the 256-block window / far past / future, has_storage) issued directly, through `&mut DB`, through `&mut dyn Database` in a Box and through the `_ref` forms, interleaved with real transactions committed through the stack, block-number jumps and, where a CacheDB is on top, direct insert_account_storage / replace_account_storage / insert_account_info calls on existing non-empty accounts; every answer must equal the reference (disk + committed changes); F1: a fault at a drawn bottom-level call index of a query must surface as an error (never a default) and the repeated query must then be right; distinct by the hash of (stack, query kinds, call forms)".into();
@@ -152,7 +152,7 @@ pub fn check(prop: &str, tier: &str) -> i32 {
             let corpus = std::sync::Arc::new(crate::e5_interp::load_eof_corpus("/repo/tests/eof_suite"));
             rep.extra.insert("eof_corpus_containers".into(), serde_json::json!(corpus.len()));
             rep.run_engine(&InterpSim { eof_corpus: corpus }, scale(tier, 400_000, 20_000_000), &findings);
-            rep.run_engine(&TxSim { focus: "C25".into() }, scale(tier, 100_000, 3_000_000), &findings);
+            rep.run_engine(&TxSim { focus: "C25".into() }, scale(tier, 300_000, 3_000_000), &findings);
         }
         "C12" | "C13" => {
             rep.rule = if prop == "C12" {
@@ -178,7 +178,7 @@ pub fn check(prop: &str, tier: &str) -> i32 {
                 // frame, and at every frame end that no more gas comes back than was given
                 rep.real_components.extend(strs(REAL_E1));
                 rep.stub_components.extend(strs(STUB_E1));
-                rep.run_engine(&TxSim { focus: "C13".into() }, scale(tier, 100_000, 3_000_000), &findings);
+                rep.run_engine(&TxSim { focus: "C13".into() }, scale(tier, 300_000, 3_000_000), &findings);
             }
         }
         "C21" => {
@@ -186,7 +186,7 @@ pub fn check(prop: &str, tier: &str) -> i32 {
             rep.real_components = strs(REAL_E1);
             rep.stub_components = strs(STUB_E1);
             rep.assumptions = vec!["EIP-7610 is applied for every spec, as the property states".into(), "CREATE/CREATE2 cells run from Tangerine/Petersburg on (before EIP-150 a failed create leaves the caller without gas)".into()];
-            rep.run_engine(&CollideSim, scale(tier, 200_000, 3_000_000), &findings);
+            rep.run_engine(&CollideSim, scale(tier, 400_000, 3_000_000), &findings);
         }
         "C02" => {
             rep.rule = "seeded histories of 1-10 transactions on one Evm whose fields are mutated to boundary values (gas limit around intrinsic/floor/block limit, fees around the base fee, nonce around the state nonce, value around the balance, overflowing cost products, sender with code / delegated, initcode around the size limit, blob counts and versions, authorization lists, access lists before Berlin, chain id, missing header fields); oracle 1: an executable validity predicate written from the EIPs must agree on accept / reject-transaction / reject-header; oracle 2: the same history without the rejected transactions on a second system gives equal results and an equal final state; F1: database faults during validation; non-trivial always, distinct by the hash of (spec, verdict and rule sequence)".into();
